@@ -49,6 +49,16 @@ CHECKS = {
     text="MultiKnee.tla mirrors the stack loop of multi_knee.multi_knee; TLC proves termination, pop bound, ordering, range, interiority and result = MKSet(0,n) for every oracle up to n=9, and emits every recursion tree (n<=7/8) which is replayed through multi_knee.multi_knee with a synthetic detector answering from the tree's table (answers 0, len-2, None included). For curvature, DFDT, Menger, L-method and Kneedle the recorded multi_knee result is judged by Trace_MultiKnee against MKSet over tables K[l][r]=<detector>.knee(points[l:r]) and the bit-exact gate table.",
     note="n<=16 for real detectors (all slices tabulated); gate relative to lf.smape_points; uts dependency trusted",
     ref="5/C02"),
+ "C03": dict(
+    technique="TLC checks the mechanism lemmas (only the corner triple turns; zero two-line residual only at the corner) with exact integer arithmetic on every generated two-slope elbow and emits it; replay into the 4 detectors x all options + Kneedle; harness-generated long elbows are admitted by TLC trace validation of family membership first",
+    text="Elbow.tla defines the family (arms, spacings 1..4, slopes j/8, dyadic offsets, heights scaled by 8) and the lemmas the property's anchors name; TLC checks them on each of 1152 (thorough ~92k) members and the harness replays each into curvature/DFDT/Menger/L-method (Fit x Refinement, Fit x Cost)/Kneedle(t=0, monotone members) expecting the corner index; random long elbows (arms <= 40) are validated as family members by Trace_Elbow and replayed too. The detectors' real arithmetic is exercised only through replay (stated in DESIGN as a weaker fit).",
+    note="exactly representable inputs; L-method run with default limit; uts trusted",
+    ref="5/C03"),
+ "C09": dict(
+    technique="TLC model checking of the DFDT cutoff loop and the three L-method refinement rules over arbitrary per-cutoff answer tables (termination, interior results; negative instance: the unguarded original rule gives a lasso) + TLC trace validation of detector results against argopt sets / reachable loop fixpoints computed from the stated criteria",
+    text="Trace_Detectors judges each recorded call: curvature/Menger/DFDT single pass/L-method get_knee results must lie in the noise-merged argmax/argmin set of the criterion recomputed by the harness from the stated formula; dfdt.knee and lmethod.knee results must be reachable results of the loop machines (DfdtFinals/LFinals explore all noise-tied optimisers); termination via loop back-edge budget. LRefine.tla proves termination of all loops for every table up to n=13.",
+    note="criteria recomputed from uts.gradient / isodata (trusted) and lmethod.compute_error on prefixes; ties within noise accept any optimiser; limit >= 4",
+    ref="5/C09"),
 }
 
 PENDING = {}
